@@ -124,10 +124,10 @@ def run(ck):
     self_stores = [n for n in ast.walk(rm) if isinstance(n, ast.Attribute) and isinstance(n.ctx, ast.Store) and isinstance(n.value, ast.Name) and n.value.id == 'self']
     ck.ob('PROV-centre-weight', mod.loc(rm), not self_stores, 'run_molecule keeps no state on the processor: the centre weight is decided per molecule ({} attribute store(s))'.format(len(self_stores)),
           key='PROV-centre-weight|stateless')
-    defs = stmts_with_env(rm, lambda s: isinstance(s, ast.Assign) and u(s.targets[0]) == 'weight')
-    arms = {}
-    for st, c, e in defs:
-        arms[u(flow.subst(st.value, e))] = c
+    call2 = [c for c in walk_local(rm) if isinstance(c, ast.Call) and call_name(c) == 'do_average_bead']
+    table = flow.value_table(rm, 'weight', lambda s_: len(call2) == 1 and any(n is call2[0] for n in ast.walk(s_)) and not isinstance(s_, (ast.If, ast.For, ast.While, ast.With, ast.Try))) \
+        if len(call2) == 1 and u(kwarg(call2[0], 'weight')) == 'weight' else None
+    arms = {t: c for c, t in (table or [])}
     want = {"molecule.force_field.variables.get('center_weight', None)", 'None', 'self.weight'}
     ok = set(arms) == want
     if ok:
@@ -141,8 +141,6 @@ def run(ck):
         ok = flow.equivalent(flow.rename(arms["molecule.force_field.variables.get('center_weight', None)"], names), flow.parse_formula('UNSET'))[0] and \
             flow.equivalent(flow.rename(arms['None'], names), flow.parse_formula('not UNSET and OFF'))[0] and \
             flow.equivalent(flow.rename(arms['self.weight'], names), flow.parse_formula('not UNSET and not OFF'))[0]
-    call2 = [c for c in walk_local(rm) if isinstance(c, ast.Call) and call_name(c) == 'do_average_bead']
-    ok = ok and len(call2) == 1 and u(kwarg(call2[0], 'weight')) == 'weight'
     ck.ob('PROV-centre-weight', mod.loc(rm), ok, 'centre weight: the force field\'s center_weight variable when none was configured, none when switched off, else the configured attribute',
           key='PROV-centre-weight|source')
     constituents_rule(ck)
